@@ -96,6 +96,7 @@ type cTxn struct {
 	datastore.Txn
 	data, head *vKV
 	bs, enc    datastore.Blockstore
+	root       *vKV // native mode: the store beneath the block store and the key store
 }
 
 func (t *cTxn) Datastore() corekv.ReaderWriter   { return t.data }
@@ -158,6 +159,7 @@ func cNewTxn() *cTxn {
 	} else {
 		root := &vKV{}
 		t.bs, t.enc = datastore.BlockstoreFrom(root), datastore.EncstoreFrom(root)
+		t.root = root
 	}
 	cCur = t
 	return t
@@ -227,6 +229,7 @@ func VerifH_C11_History() {
 	}
 	var writesSoFar [2]uint64
 	var lastHead [2]cid.Cid
+	keyLost := vConfInt("keyloss") != 0
 	step := func(ctx context.Context, writes [2]bool, tag string, label string) {
 		for i, f := range cFields {
 			if !writes[i] {
@@ -237,7 +240,15 @@ func VerifH_C11_History() {
 			reg := crdt.NewLWW(t.data, "sv1", keys.DataStoreKey{CollectionShortID: 1, DocID: cDocID, FieldID: string(rune('2' + i))}, f)
 			delta := &crdt.LWWDelta{DocID: []byte(cDocID), FieldName: f, SchemaVersionID: "sv1", Data: payload}
 			lnk, evBytes, err := AddDelta(ctx, reg, delta)
-			vAssert(err == nil, "add-delta-no-error")
+			if keyLost && tag == "u." {
+				// the key blocks are gone: the write may be refused, what it must not do is store the value in clear
+				if err != nil {
+					vCover("refused-without-key")
+					continue
+				}
+			} else {
+				vAssert(err == nil, "add-delta-no-error")
+			}
 			if err != nil {
 				return
 			}
@@ -264,7 +275,7 @@ func VerifH_C11_History() {
 			if covered(i) {
 				vAssert(!bytes.Equal(data, payload), label+"-stored-block-is-not-plaintext")
 				vAssert(stored.Encryption != nil, label+"-stored-block-carries-encryption-link")
-				if stored.Encryption != nil {
+				if stored.Encryption != nil && !(keyLost && tag == "u.") {
 					vAssert(cEncStoreHas(t, stored.Encryption.Cid), "key-block-in-the-key-store")
 					in, _ := t.bs.Has(context.Background(), stored.Encryption.Cid)
 					vAssert(!in, "key-block-not-in-the-shared-block-store")
@@ -284,9 +295,26 @@ func VerifH_C11_History() {
 		// the composite commit of the step
 		comp := crdt.NewDocComposite(t.data, "sv1", keys.DataStoreKey{CollectionShortID: 1, DocID: cDocID, FieldID: core.COMPOSITE_NAMESPACE})
 		_, _, err := AddDelta(ctx, comp, comp.Delta())
-		vAssert(err == nil, "composite-add-delta-no-error")
+		if !(keyLost && tag == "u.") {
+			vAssert(err == nil, "composite-add-delta-no-error")
+		}
 	}
 	step(createCtx, w1, "c.", "create")
+	if keyLost {
+		// conf keyloss: the key store is lost between the two writes (restored without it, or a lookup that misses)
+		if es, ok := t.enc.(*cStore); ok {
+			es.cids, es.objs = nil, nil
+		} else {
+			// natively: every entry under the key store's prefix of the root store
+			var keep []vKVEnt
+			for _, e := range t.root.ents {
+				if !bytes.HasPrefix(e.k, []byte("/db/enc")) {
+					keep = append(keep, e)
+				}
+			}
+			t.root.ents = keep
+		}
+	}
 	step(updateCtx, w2, "u.", "update")
 	vCover("history")
 }
